@@ -393,7 +393,7 @@ class Gen:
             return [k, x, y, r.randint(0, 2)]
         if k == "imp":
             a, b = self.split2(budget - 1)
-            how = r.randint(0, 1)
+            how = r.choice([0, 0, 1, 1, 2, 3, 4])
             x = self.gen_b(a, True)
             y = self.gen_b(b, True)
             if how == 0:
@@ -462,7 +462,7 @@ class Gen:
             return ["sum", items]
         if k == "if":
             a, b, c = self.splitn(budget - 1, 3)
-            how = r.randint(0, 1)
+            how = r.choice([0, 0, 1, 1, 2, 3, 4, 5])
             cnd = self.gen_b(a, True)
             if how == 0:
                 cnd = self.nonlit(cnd, "B")
@@ -714,8 +714,16 @@ class Builder:
             return r[0] if how == 2 else r
         if t == "imp":
             x, y = self.build(node[1]), self.build(node[2])
-            if self._via(node, 3) == 0:
+            how = self._via(node, 3)
+            if how == 0:
                 return x.then(y)
+            if how == 2 and isinstance(x, E.Expr):
+                # element-wise forms: array premise (method and function), or array conclusion
+                return A.BoolArray1D([x]).then(y)[0]
+            if how == 3 and isinstance(y, E.Expr):
+                return K.then(x, A.BoolArray1D([y]))[0]
+            if how == 4 and isinstance(x, E.Expr) and isinstance(y, E.Expr):
+                return K.then(A.BoolArray2D([x, x], (1, 2)), A.BoolArray2D([y, y], (1, 2)))[0, 1]
             return K.then(x, y)
         if t in CMP or t in ("add", "sub"):
             x, y = self.build(node[1]), self.build(node[2])
@@ -790,8 +798,17 @@ class Builder:
             return K.alldifferent(items)
         if t == "if":
             c, x, y = self.build(node[1]), self.build(node[2]), self.build(node[3])
-            if self._via(node, 4) == 0:
+            how = self._via(node, 4)
+            if how == 0:
                 return c.cond(x, y)
+            if how == 2 and isinstance(c, E.Expr):
+                return A.BoolArray1D([c]).cond(x, y)[0]  # array condition, scalar branches
+            if how == 3 and isinstance(x, E.Expr):
+                return K.cond(c, A.IntArray1D([x]), y)[0]  # scalar condition, array "then" branch
+            if how == 4 and isinstance(y, E.Expr) and isinstance(c, E.Expr):
+                return c.cond(x, A.IntArray1D([y]))[0]  # method form with an array "else" branch
+            if how == 5 and isinstance(c, E.Expr):
+                return K.cond(A.BoolArray2D([c, c], (2, 1)), x, y)[1, 0]
             return K.cond(c, x, y)
         if t == "gavc":
             n, edges = node[1], node[2]
